@@ -1,7 +1,7 @@
 SPECIFICATION Spec
 CONSTANTS
   Dev <- DevPcall
-  B = 2
+  B = 3
   RecMax = 1
   Bodies <- BodiesTight
   Kinds <- KindsAll
